@@ -60,7 +60,10 @@ def main(tier):
             cond, then = evs_[0][1], evs_[0][2]
         elif not evs_ and tail[0] == "if":
             cond, then, els = tail[1], tail[2], tail[3]
-            if els != ([], ("ok", nodep)):
+            et = els[1]
+            while et[0] == "ret":
+                et = et[1]
+            if els[0] != [] or et != ("ok", nodep):
                 then = None
         if then is None:
             run.ob(False, "impl-shape|%s" % ev, "C12 implicit_multiply is `if trigger { Ok(node * rhs) } else { Ok(node) }`", where(m, "::parser::Parser::implicit_multiply"), "UNRECOGNISED: " + show_summary(s)[:400])
